@@ -316,6 +316,10 @@ def parser_soundness_tie(c, hb, fmtname="JSON Schema", stream="c01-front", verbs
     c.oblige(stream + " (3'): fragment ∧ PlainS ∧ strict validity ⇒ decodes and round-trips (" + theorem + "_end_to_end_partial evaluated on the REAL front-end IR through the pass and codec models: %d documents)" % st["end_to_end_instances"], not e2e_bad and st["end_to_end_instances"] >= 100)
     c.oblige("witness of " + theorem + "_parser_sound_counterexample replays on the real front-end (" + witness_text + ")",
              len(witness) == 1 and all(w[2] for w in witness), [(w[0][1], w[1]) for w in witness] or "pinned row missing")
+    if len(witness) == 1 and all(w[2] for w in witness):
+        # the witness is a genuine defect of cog on the pinned tree: recorded, printed as KNOWN-FINDING
+        c.match_known({"pinint64": "c01-front pinned pinint64\tFAIL source-valid document outside the IR's int64",
+                       "oapinnullbool": "c01-front-oa pinned oapinnullbool\tFAIL source-valid null not admitted by the IR"}.get(witness_case, ""))
     c.oblige(stream + " is not vacuous (schemas, schemas in the fragment, strictly valid documents of the fragment, invalid documents, err schemas)",
              ncases >= 100 and st["frag_cases"] >= 20 and st["frag_strict_wf"] >= 150 and st["invalid"] >= 300 and st["front_err_agree"] >= 2,
              "schemas %d, in FragJS %d, strict documents %d, invalid %d, err schemas %d" % (ncases, st["frag_cases"], st["frag_strict_wf"], st["invalid"], st["front_err_agree"]))
